@@ -159,6 +159,8 @@ impl CasManager {
     pub fn delete_blobs(&self, hashes: &[BlobHash]) -> Result<(), CasManagerError> {
         for hash in hashes {
             let file_path = self.paths.cas_file_path(hash);
+            #[cfg(feature = "verif-hooks")]
+            crate::verif::point("delete_blobs.before_unlink");
             match std::fs::remove_file(&file_path) {
                 Ok(_) => {
                     tracing::debug!(
